@@ -67,10 +67,24 @@ fn scenario(rng: &mut Rng) -> (Program, &'static str) {
                 name: "f".into(),
                 params: vec!["x".into()],
                 anns: vec![],
-                rhs: E::Rec {
-                    binder: "r".into(),
-                    id: 0,
-                    body: Box::new(obj(vec![prop("v", E::var("x", Target::Param(0, 0))), prop("next", E::Arr(Box::new(E::var("r", Target::Rec(0)))))])),
+                rhs: {
+                    let mut ps = vec![prop("v", E::var("x", Target::Param(0, 0))), prop("next", E::Arr(Box::new(E::var("r", Target::Rec(0)))))];
+                    if rng.chance(1, 2) {
+                        // a nested rec that mentions the outer binder but not the parameter
+                        ps.push(prop(
+                            "kids",
+                            E::Arr(Box::new(E::Rec {
+                                binder: "z".into(),
+                                id: 1,
+                                body: Box::new(obj(vec![prop("up", E::var("r", Target::Rec(0))), prop("n", E::Arr(Box::new(E::var("z", Target::Rec(1)))))])),
+                            })),
+                        ));
+                    }
+                    E::Rec {
+                        binder: "r".into(),
+                        id: 0,
+                        body: Box::new(obj(ps)),
+                    }
                 },
                 ty: Ty::Fun(vec![Ty::Prim], Box::new(Ty::Obj)),
             };
@@ -93,7 +107,7 @@ fn scenario(rng: &mut Rng) -> (Program, &'static str) {
                     stmts: vec![Stmt::Let { id: 0 }, res("x", obj(ps))],
                 }],
                 decls: vec![f],
-                n_recs: 1,
+                n_recs: 2,
             };
             (p, "rec-in-function")
         }
